@@ -281,10 +281,15 @@ func vBatchCase(variant int) {
 	} else {
 		n = vBatchSizesThorough[vCase(0, len(vBatchSizesThorough)-1)]
 	}
-	vNote("batch lengths: quick {0,1,2,3,4,5,6,8,9} fully symbolic plus {68,70,131} with the first 64 resp. 128 entries being one replicated symbolic entry (second/third chunk and remainder independent); thorough adds {7,13,63,64,65,67,68,69,127..131} fully symbolic; at most one malformed entry (8 kinds: short/long/nil key, short/long/nil signature, short digest) at first/middle/last position; all entry bytes symbolic; messages opaque")
+	vNote("batch lengths: quick {0,1,2,3,4,5,6,8,9} fully symbolic plus {68,70,131} with the first 64 resp. 128 entries being one replicated symbolic entry (second/third chunk and remainder independent); thorough adds {7,13} fully symbolic and {63,64,65,67,68,69,127..131} with all but the last six entries replicated and every malformed kind among the independent ones; at most one malformed entry (8 kinds: short/long/nil key, short/long/nil signature, short digest) at first/middle/last position; all entry bytes symbolic; messages opaque")
 	vReplicate = 0
 	if vTier() == 0 && n > 9 {
 		vReplicate = (n / 64) * 64
+	}
+	if vTier() == 1 && n > 13 {
+		// thorough: every chunk boundary (63..69, 127..131) with the last six entries independent and all
+		// malformed kinds among them; fully symbolic 64-entry chunks exhaust memory (measured) and are outside
+		vReplicate = n - 6
 	}
 	badKind := 0
 	badPos := -1
